@@ -249,6 +249,11 @@ class Check(PropertyCheck):
             p = os.path.join(d, "c03.db")
             e = {"LD_PRELOAD": shim, "VSHIM_PATH": p, "VSHIM_KILL_AT": str(n)}
             rc, out, err = C.run_lines([exe, "db", d], lines, env=e)
+            # the survivor is examined twice, each time as the FIRST access after the kill: once by plain sqlite3 (`raw`: what
+            # SQLite's own recovery makes of the file and its hot journal), once - on an untouched copy - by a new BuildDB
+            d2 = d + ".next"
+            shutil.rmtree(d2, ignore_errors=True)
+            shutil.copytree(d, d2)
             rc2, o2, e2 = C.run_lines([exe, "db", d], ["raw"])
             raw = o2[0] if o2 else "error=noout"
             snap = None
@@ -259,8 +264,9 @@ class Check(PropertyCheck):
             cl = snap["client"] if snap else 1
             # the next process: reads everything (must not change the file), then CONTINUES with one more build
             cont, ce, crows = continued_build(snap, n)
-            rc3, o3, e3 = C.run_lines([exe, "db", d], ["new 0 %d 0" % cl, "keys 0", "epoch 0", "drop 0", "raw"] + cont)
+            rc3, o3, e3 = C.run_lines([exe, "db", d2], ["new 0 %d 0" % cl, "keys 0", "epoch 0", "drop 0", "raw"] + cont)
             shutil.rmtree(d, ignore_errors=True)
+            shutil.rmtree(d2, ignore_errors=True)
             return n, rc, len(out), raw, snap, o3[:5], (cont, ce, crows, o3[5:])
 
         fired = 0
@@ -387,6 +393,99 @@ class Check(PropertyCheck):
         for f in res.oracle_failures[before:]:
             f["stream"] = "engine-crash"
 
+    def engine_sqlite_kills(self, ctx, res, shim):
+        """real engine ON THE REAL SQLite DATABASE: a history is run in one process up to its last build, which is killed
+        before the n-th system call that touches the database file; a NEW process then opens the surviving file, the
+        external state changes once more, and the continued build must return what a brand-new engine computes."""
+        import subprocess
+        from .. import engine as E
+        exe = ctx.exe.get(("vengine", "plain"))
+        if not exe:
+            return
+        rng = C.Rng(ctx.seed, "C04/engine-sqlite")
+        base = os.path.join(C.BUILD, "scratch", "c04e-%d" % os.getpid())
+        shutil.rmtree(base, ignore_errors=True)
+        os.makedirs(base)
+        nh = 12 if ctx.thorough else 4
+        per = 40 if ctx.thorough else 10
+        st = {"histories": 0, "kill_points_fired": 0, "continued_builds_compared": 0, "continued_builds_failed_or_cyclic": 0}
+
+        def run(lines, env=None, timeout=120):
+            e = dict(os.environ)
+            e.update(env or {})
+            p = subprocess.run([exe, "trace"], input=("\n".join(lines) + "\n").encode(), stdout=subprocess.PIPE, stderr=subprocess.PIPE,
+                               env=e, timeout=timeout)
+            return p.returncode, p.stdout.decode().split("\n")
+        for hi in range(nh):
+            rules = E.gen_program(rng, 5 + rng.below(8))
+            ops = E.gen_history(rng, rules, 3 + rng.below(4), allow_restart=True)
+            builds = [i for i, o in enumerate(ops) if o["op"] == "B"]
+            if len(builds) < 2:
+                continue
+            last = builds[-1]
+            prog = ["P %d" % len(rules)] + [rules[k].line() for k in sorted(rules)]
+            head = [E.op_line(o) for o in ops[:last]]
+            envs = {}
+            for o in ops[:last]:
+                if o["op"] == "M":
+                    envs[o["slot"]] = o["val"]
+            dbp = os.path.join(base, "h%d.db" % hi)
+            cf = os.path.join(base, "h%d.count" % hi)
+
+            def p1(with_last):
+                return ["q " + dbp, "W"] + prog + head + ([E.op_line(ops[last])] if with_last else [])
+            counts = []
+            for wl in (False, True):
+                for suffix in ("", "-journal"):
+                    if os.path.exists(dbp + suffix):
+                        os.unlink(dbp + suffix)
+                run(p1(wl), {"LD_PRELOAD": shim, "VSHIM_PATH": dbp, "VSHIM_KILL_AT": "0", "VSHIM_COUNT_FILE": cf})
+                counts.append(int(open(cf).read().strip() or 0) if os.path.exists(cf) else 0)
+            lo, hi_n = counts
+            if hi_n <= lo:
+                continue
+            st["histories"] += 1
+            pts = list(range(lo + 1, hi_n + 1))
+            if len(pts) > per:
+                pts = sorted(set([pts[0], pts[-1]] + [rng.choice(pts) for _ in range(per)]))
+            key = ops[last]["key"]
+            inputs = sorted(k for k in rules if rules[k].kind == 0)
+            for n in pts:
+                for suffix in ("", "-journal"):
+                    if os.path.exists(dbp + suffix):
+                        os.unlink(dbp + suffix)
+                rc, _ = run(p1(True), {"LD_PRELOAD": shim, "VSHIM_PATH": dbp, "VSHIM_KILL_AT": str(n)})
+                if rc != 99:
+                    continue
+                st["kill_points_fired"] += 1
+                # a new process: same program, the external state as it was plus one more edit, the same target
+                e2 = dict(envs)
+                edit = rng.choice(inputs)
+                e2[edit] = 5000 + n
+                lines2 = ["q " + dbp] + prog + ["M %d %d" % (k, v) for k, v in sorted(e2.items())] + ["B %d 0 0 0" % key, "O %d" % key]
+                rc2, out2 = run(lines2)
+                tr = next((l for l in out2 if l.startswith("B ")), "")
+                clean = out2[out2.index(tr) + 1].strip() if tr and out2.index(tr) + 1 < len(out2) else ""
+                ev = E.parse_trace(tr)
+                ret = next((e[1] for e in ev if e and e[0] == "R"), None)
+                if rc2 != 0 or ret is None:
+                    res.oracle_failures.append({"what": "after a kill before database call %d the next process could not continue the build (exit %s): %s" % (n, rc2, " | ".join(out2)[-300:]),
+                                                "kind": "continue-failed", "stream": "engine-sqlite-kill",
+                                                "input": {"process1": p1(True), "kill_before_call": n, "process2": lines2}})
+                    continue
+                if any(e and e[0] in ("CY", "ER", "X") for e in ev):
+                    st["continued_builds_failed_or_cyclic"] += 1
+                    continue
+                st["continued_builds_compared"] += 1
+                if ret != clean:
+                    res.oracle_failures.append({
+                        "what": "a build killed before its database call %d left a database from which the next process returns %s for key %d, a brand-new engine returns %s" % (n, ret, key, clean),
+                        "kind": "stale-after-kill", "stream": "engine-sqlite-kill",
+                        "input": {"process1": p1(True), "kill_before_call": n, "process2": lines2}})
+        res.evaluations += st["continued_builds_compared"]
+        res.distribution["engine_sqlite_kills"] = st
+        shutil.rmtree(base, ignore_errors=True)
+
     def replay(self, ctx, res, shim, sv, base):
         """./check C04 --replay <file>: re-run the recorded kill point of the recorded history"""
         f = json.load(open(ctx.replay_path)).get("failure", {})
@@ -410,6 +509,7 @@ class Check(PropertyCheck):
         if shim is None:
             res.mismatches.append({"stream": "c04shim", "input": "cc failed", "impl": out[-500:]})
             return
+        self.engine_sqlite_kills(ctx, res, shim)
         sv = c03.schema_version()
         rng = ctx.rng
         base = os.path.join(C.BUILD, "scratch", "c04-%d" % os.getpid())
